@@ -267,6 +267,7 @@ class Ctx:
         self.thorough = tier == "thorough"
         self.t0 = time.time()
         self.replay_mode = replay is not None
+        self.replay_path = replay
         self.violations = []      # dicts
         self.known_hits = collections.OrderedDict()
         self.samples = []
@@ -385,7 +386,7 @@ class Ctx:
         viols.sort(key=lambda v: v["verdict"] != "violation")
         shown = viols[:5]
         for i, v in enumerate(shown):
-            path = self.write_replay(v, i)
+            path = self.replay_path if self.replay_mode else self.write_replay(v, i)
             tail = " no-failing-input-found" if v["verdict"] == "no-failing-input-found" else ""
             lines.append(f"VIOLATION property={self.prop} replay={path}{tail}")
         ev = {
